@@ -714,7 +714,7 @@ class FeatureIntervalCollection(AbstractFeatureIntervalCollection):
         else:
             ids = id_or_ids
 
-        features = [self.guid_map[i] for i in ids if i in self.guid_map]
+        features = [self.guid_map[i] for i in dict.fromkeys(ids) if i in self.guid_map]
         if features:
             return FeatureIntervalCollection(
                 feature_intervals=features,
